@@ -121,3 +121,11 @@ Definition chk_c04 (c : val) : val :=
   | Some r => verdict_propfail r (run_c04 input)
   | None => if val_eqb (run_c04 input) (nthv 0 impl) then verdict_ok else verdict_mismatch (run_c04 input)
   end.
+
+(* ---------- C04, isolation between targets (no model: a metamorphic statement on the implementation's own outputs) ----------
+   impl ( request-result-through-the-shared-transcoder  request-result-through-a-transcoder-of-its-own
+          response-text-shared  response-text-own ) :
+   6: the message a request produced, or the text a response was rendered to, depends on which other targets the bridge served before *)
+Definition chk_c04_iso (c : val) : val :=
+  let impl := nthv 1 c in
+  if val_eqb (nthv 0 impl) (nthv 1 impl) && val_eqb (nthv 2 impl) (nthv 3 impl) then verdict_ok else verdict_propfail 6 (VL []).
